@@ -602,3 +602,154 @@ Proof.
 Qed.
 Lemma symbol_nonvacuous : symbol_index (p_map env_ex) [114] = Some 0 /\ symbol_index (p_map env_ex) [98] = Some 2.
 Proof. split; reflexivity. Qed.
+
+(* ------------------------------------------------------------ histories *)
+Lemma is_undo_query : forall loc args, loc <> undo_path -> is_undo (Reply (mk loc args)) = false.
+Proof.
+  intros loc args H. cbn. destruct (str_eqb loc undo_path) eqn:E; [|reflexivity].
+  apply str_eqb_eq in E. contradiction.
+Qed.
+
+Lemma undo_events_app : forall a b, undo_events (a ++ b) = undo_events a ++ undo_events b.
+Proof. intros. unfold undo_events. apply filter_app. Qed.
+
+Lemma undo_pairs_app : forall a b, undo_pairs (a ++ b) = undo_pairs a ++ undo_pairs b.
+Proof. intros. unfold undo_pairs. rewrite undo_events_app. apply flat_map_app. Qed.
+
+Lemma numeric_set_step : forall e loc old key mka mkb v r,
+  numeric_set e loc old key mka mkb v r ->
+  exists st o, r = Some (st, o) /\ st = clampK key (p_min e) (p_max e) v /\
+    undo_events o = if key old =? key st then [] else [undo_event loc mka old st].
+Proof.
+  intros e loc old key mka mkb v r H.
+  destruct (numeric_clamp _ _ _ _ _ _ _ _ H) as (o & E).
+  eexists. exists o. split; [exact E|]. split; [reflexivity|].
+  exact (numeric_undo_iff _ _ _ _ _ _ _ _ _ _ H E).
+Qed.
+
+Lemma scalar_step_of : forall (f : Z -> option (Z * list out)) old st o,
+  f old = Some (st, o) -> scalar [old] f = Some ([st], o).
+Proof. intros f old st o H. unfold scalar. rewrite H. reflexivity. Qed.
+
+Lemma step_scalar : forall k e loc m old args,
+  scalar_numeric k -> env_ok e k -> val_ok k old -> conforming e k args -> loc <> undo_path ->
+  exists st o, step k e loc m [old] args = Some ([st], o) /\ val_ok k st /\
+    undo_events o =
+      if kind_key k old =? kind_key k st then [] else [undo_event loc (kind_arg k) old st].
+Proof.
+  intros k e loc m old args Hk Henv Hold Hc Hloc.
+  inversion Hc; subst.
+  - (* query *)
+    exists old. destruct Hk as [Hk|[Hk|[Hk|Hk]]]; subst k; eexists;
+      (split; [reflexivity|]); (split; [exact Hold|]);
+      rewrite Z.eqb_refl; unfold undo_events; cbn [filter];
+      rewrite (is_undo_query loc _ Hloc); reflexivity.
+  - (* rParam *)
+    destruct Henv as [Hmn Hmx].
+    destruct (numeric_set_step e loc old _ _ _ _ _ (NS_param e loc old v H Hmn Hmx)) as (st & o & E & _ & U).
+    exists st, o. split; [apply scalar_step_of; exact E|]. split; [exact I|exact U].
+  - destruct (numeric_set_step e loc old _ _ _ _ _ (NS_paramI e loc old v)) as (st & o & E & _ & U).
+    exists st, o. split; [apply scalar_step_of; exact E|]. split; [exact I|exact U].
+  - destruct Henv as [Hmn Hmx].
+    destruct (numeric_set_step e loc old _ _ _ _ _ (NS_paramF e loc old b Hold H Hmn Hmx)) as (st & o & E & S & U).
+    exists st, o. split; [apply scalar_step_of; exact E|]. split; [|exact U].
+    subst st. apply (good_clampK Z fkey nonan); assumption.
+  - destruct (numeric_set_step e loc old _ _ _ _ _ (NS_option_i e loc old v)) as (st & o & E & _ & U).
+    exists st, o. split; [apply scalar_step_of; exact E|]. split; [exact I|exact U].
+  - destruct (numeric_set_step e loc old _ _ _ _ _ (NS_option_c e loc old v)) as (st & o & E & _ & U).
+    exists st, o. split; [apply scalar_step_of; exact E|]. split; [exact I|exact U].
+  - destruct (rOptionCb_set_symbol e loc old s k0 H) as ([st o] & E & S1 & S2 & _).
+    cbn [fst snd] in S1, S2. unfold clampK in S1, S2.
+    exists st, o. split; [apply scalar_step_of; exact E|]. split; [exact I|].
+    subst st. exact S2.
+Qed.
+
+Lemma chainK_key_eq : forall key a b evs f,
+  key a = key b -> chainK key b evs f -> chainK key a evs f.
+Proof.
+  intros key a b evs f H C. destruct evs as [|[old new] r]; cbn in *.
+  - congruence.
+  - destruct C as (C1 & C2 & C3). repeat split; try assumption. congruence.
+Qed.
+
+Lemma arg_val_kind_arg : forall k x, arg_val (kind_arg k x) = Some x.
+Proof. intros k x. destruct k; reflexivity. Qed.
+
+Lemma run_scalar_chain : forall k e ops v0,
+  scalar_numeric k -> env_ok e k -> val_ok k v0 -> Forall (op_ok e k) ops ->
+  exists v1 outs, run k e ops [v0] = Some ([v1], outs) /\ val_ok k v1 /\
+                  chainK (kind_key k) v0 (undo_pairs outs) v1.
+Proof.
+  intros k e ops. induction ops as [|o r IH]; intros v0 Hk Henv Hv Hops.
+  - exists v0, []. split; [reflexivity|]. split; [exact Hv|reflexivity].
+  - inversion Hops as [|? ? [Hc Hloc] Hr]; subst.
+    destruct (step_scalar k e (op_loc o) (op_m o) v0 (op_args o) Hk Henv Hv Hc Hloc)
+      as (st & o1 & E1 & Hst & U).
+    destruct (IH st Hk Henv Hst Hr) as (v1 & o2 & E2 & Hv1 & C).
+    exists v1, (o1 ++ o2). cbn [run]. rewrite E1, E2. split; [reflexivity|]. split; [exact Hv1|].
+    rewrite undo_pairs_app. unfold undo_pairs at 1. rewrite U.
+    destruct (kind_key k v0 =? kind_key k st) eqn:EK.
+    + cbn [flat_map app]. apply Z.eqb_eq in EK. apply (chainK_key_eq _ v0 st); assumption.
+    + apply Z.eqb_neq in EK. unfold undo_event. cbn [flat_map undo_pair o_args mk app].
+      rewrite !arg_val_kind_arg. cbn [app chainK]. repeat split; assumption.
+Qed.
+
+(* arrays over a whole history: same length, and an element no message of the
+   history addresses keeps its value *)
+Lemma at_idx_frame : forall A (arr arr' : list A) idx f o,
+  at_idx arr idx f = Some (arr', o) ->
+  length arr' = length arr /\
+  forall j, j <> Z.to_nat idx -> nth_error arr' j = nth_error arr j.
+Proof.
+  intros A arr arr' idx f o H. unfold at_idx in H.
+  destruct (nth_error arr (Z.to_nat idx)) as [cur|]; [|discriminate].
+  destruct (f cur) as [[v o']|]; [|discriminate].
+  inversion H; subst. split; [apply length_upd|].
+  intros j Hj. apply nth_error_upd_other. exact Hj.
+Qed.
+
+Lemma step_array_frame : forall k e loc m arr args arr' o,
+  is_array k = true -> step k e loc m arr args = Some (arr', o) ->
+  length arr' = length arr /\
+  forall j, j <> Z.to_nat (boils_idx e m) -> nth_error arr' j = nth_error arr j.
+Proof.
+  intros k e loc m arr args arr' o Hk H.
+  destruct k; try discriminate; cbn [step] in H;
+    unfold rArrayICb, rArrayFCb, rArrayOptionCb, rArrayTCb in H;
+    exact (at_idx_frame _ _ _ _ _ _ H).
+Qed.
+
+Lemma run_array_frame : forall k e ops arr arr' outs,
+  is_array k = true -> run k e ops arr = Some (arr', outs) ->
+  length arr' = length arr /\
+  forall j, Forall (fun o => Z.to_nat (boils_idx e (op_m o)) <> j) ops ->
+            nth_error arr' j = nth_error arr j.
+Proof.
+  intros k e ops. induction ops as [|o r IH]; intros arr arr' outs Hk H.
+  - cbn in H. inversion H; subst. split; [reflexivity|]. intros; reflexivity.
+  - cbn [run] in H.
+    destruct (step k e (op_loc o) (op_m o) arr (op_args o)) as [[st1 o1]|] eqn:E1; [|discriminate].
+    destruct (run k e r st1) as [[st2 o2]|] eqn:E2; [|discriminate].
+    inversion H; subst.
+    destruct (step_array_frame _ _ _ _ _ _ _ _ Hk E1) as [L1 F1].
+    destruct (IH _ _ _ Hk E2) as [L2 F2].
+    split; [congruence|].
+    intros j Hj. inversion Hj as [|? ? Hj1 Hjr]; subst.
+    rewrite (F2 j Hjr). apply F1. intro; subst j. apply Hj1. reflexivity.
+Qed.
+
+(* a history on the int port of [env_ex] (range -3..9): set 100, query, set 100
+   again, set -7 -> two events (5 -> 9), (9 -> -3) *)
+Definition hist_ex : list op :=
+  [ {| op_loc := [47; 105]; op_m := [105]; op_args := [Ai 100] |};
+    {| op_loc := [47; 105]; op_m := [105]; op_args := [] |};
+    {| op_loc := [47; 105]; op_m := [105]; op_args := [Ai 100] |};
+    {| op_loc := [47; 105]; op_m := [105]; op_args := [Ai (-7)] |} ].
+Lemma history_nonvacuous :
+  Forall (op_ok env_ex KI) hist_ex /\
+  exists outs, run KI env_ex hist_ex [5] = Some ([-3], outs) /\ undo_pairs outs = [(5, 9); (9, -3)].
+Proof.
+  split.
+  - repeat constructor; discriminate.
+  - eexists. split; reflexivity.
+Qed.
